@@ -63,6 +63,14 @@ fn entries(pos_doc: &Option<MObj>, neg_doc: &Option<MObj>, side: &str) -> Vec<Ex
     mk("null", None, Some(Y::Null));
     mk("sequence", None, Some(Y::Sequence(vec![Y::String("a".into())])));
     mk("bool", None, Some(Y::Bool(true)));
+    // the same documents unmarked: structurally identical in both lists
+    if let Some(d) = pos_doc {
+        out.push(Ex { y: Y::Mapping(mdoc::to_yaml_map(d)), marker: None, doc: Some(d.clone()), label: "matching-unmarked" });
+    }
+    if let Some(d) = neg_doc {
+        out.push(Ex { y: Y::Mapping(mdoc::to_yaml_map(d)), marker: None, doc: Some(d.clone()), label: "non-matching-unmarked" });
+    }
+    out.push(Ex { y: Y::String("same-in-both-lists".into()), marker: None, doc: None, label: "string-unmarked" });
     out
 }
 
